@@ -57,5 +57,9 @@ func Scenarios(prop string) []gx.Sc {
 		{Name: "cg?m=1&np=1&n=2&mode=all&ns=2&move=1&gates=" + gates + "&faults=hb-rebalance" + ca, Q: 2, T: 3},
 		// no rebalance retries at all (Rebalance.Retry.Max = 0): every budget-bound branch of a rebalance is on its last attempt
 		{Name: "cg?m=1&np=1&n=2&mode=all&ns=2&rbmax=0&gates=" + gates + "&faults=" + faults + ca, Q: 2, T: 3},
+		// the application closes the group at any moment of a running session (the other scenarios close between sessions):
+		// Cleanup, the final commit of what was marked and only then the departure from the group
+		{Name: "cg?m=1&np=1&n=2&mode=all&ns=1&gates=" + gates + "&faults=hb-rebalance,commit-drop,leave-drop&closeany=1", Q: 2, T: 3},
+		{Name: "cg?m=1&np=2&n=2&mode=k2&ns=1&gates=" + gates + "&faults=hb-rebalance&closeany=1", Q: 1, T: 2},
 	}
 }
